@@ -61,6 +61,10 @@ func (u *Util) Format(b *bytes.Buffer, f string, args ...goja.Value) {
 			}
 		}
 	}
+	if pct {
+		// a '%' at the very end of the format string is not part of a directive
+		b.WriteByte('%')
+	}
 
 	for _, arg := range args[argNum:] {
 		b.WriteByte(' ')
